@@ -562,6 +562,33 @@ FUNCS = {"sample": f_sample, "treesumrl": f_treesumrl, "pnextrl": f_pnextrl, "pn
          "normalize": f_normalize, "derivcall": f_derivcall, "explen": f_explen}
 
 
+def resym(x, table):
+    if isinstance(x, str):
+        return table.get(x, x)
+    if isinstance(x, list):
+        return [resym(y, table) for y in x]
+    if isinstance(x, dict):
+        return {k: resym(v, table) for k, v in x.items()}
+    return x
+
+
+INT_SYMS = {"a": "<0>", "b": "<1>", "c": "<2>"}               # token ids; 0 is falsy
+FRESH_SYMS = {"a": "u03B1", "b": "u03B2", "c": "u03B3"}      # characters CPython does not cache: every occurrence of a
+#                                                              token (in the grammar, in the query) is a distinct object
+
+
+def variant_event(rng, p_int=0.07, p_fresh=0.07, skip=()):
+    """event() that re-spells a fraction of the calls over other terminal symbols (same call, same answer)."""
+    def ev(fn, args, site=None, feat=None, timeout=30):
+        x = rng.random()
+        if fn not in skip and x < p_int + p_fresh:
+            table, tag = (INT_SYMS, "+int-symbols") if x < p_int else (FRESH_SYMS, "+uncached-symbols")
+            args = resym(args, table)
+            feat = (feat or "plain") + tag
+        return event(fn, args, site=site, feat=feat, timeout=timeout)
+    return ev
+
+
 def event(fn, args, site=None, feat=None, timeout=30):
     """Run one real call; exceptions raised by the library are recorded (a call that raises returns
     nothing the specification can accept)."""
